@@ -194,8 +194,24 @@ func VerifC07Compact() {
 		// inside one key's versions (any revision), pieces advertised in any order
 		w.setPartitions()
 	}
+	if zzverif.Param("iterfault", 0) == 1 {
+		// one step of the compaction's scan fails transiently (the scan's own back-off retry goes on)
+		if at := zzverif.Choose("iterfault", 7); at > 0 {
+			n, fired := 0, false
+			w.s.IterFault = func(start []byte, step int) bool {
+				n++
+				if !fired && n == at {
+					fired = true
+					zzverif.Cover("scan-step-failed")
+					return true
+				}
+				return false
+			}
+		}
+	}
 	ok, eff := w.compact(c)
 	w.s.FaultAt = nil
+	w.s.IterFault = nil
 	w.s.Partitions = nil
 	zzverif.Assert(ok, "compaction request accepted")
 	zzverif.Assert(eff == c, "compaction ran at the requested revision")
